@@ -40,7 +40,7 @@ ORDER = {
     'Oma.lean': ['C20', 'C15', 'C04'],
     'Newick.lean': ['C18'],
     'Input.lean': ['C03', 'C19', 'C15', 'C01'],
-    'History.lean': ['C03', 'C02', 'C14', 'C19'],
+    'History.lean': ['C06', 'C09', 'C03', 'C02', 'C14', 'C19'],
     'Spell.lean': ['C12'],
     'WF.lean': ['C02', 'C04', 'C03'],
     'Realises.lean': ['C03', 'C02'],
